@@ -44,6 +44,16 @@ Views (`select` returns a NEW object except where noted):
   `CollectionManifest.select_to_manifest` -> `CollectionManifest(rows)`: a NEW row list holding the SAME row dicts
   SBT / LCA_Database     `select` checks, appends the picklist to `self.picklists` and returns `self` (in place, by design);
                          the picklist is appended BEFORE the "multiple picklists" refusal is raised.
+Loaded from disk (round 3):
+  SBT (`load_sbt_index`)  in-place selector like the in-memory tree; `signatures()` goes through the manifest and re-reads
+                         every leaf from the storage (new frozen objects); the node cache size is a parameter of the op and
+                         NOT of the model: that it cannot matter is the claim
+  SqliteIndex            `select` -> new SqliteIndex over the SAME connection with a merged copy of the manifest's selection
+                         dict (`num` / `abund` refused, never stored); rows re-read on every call; hands out plain
+                         (mutable) `SourmashSignature` objects (finding C15.3; `Gen.ownSqliteHandsOutMutable`)
+  LCA_SqliteDatabase     the same, but it re-reads its rows while it is constructed (`scaled=None` fails at select time)
+  LCA_Database.load      a JSON-loaded database is the in-memory kind
+Saves (`vro save…`) and every other read-only call on a view are `vRead`: the world is returned unchanged.
 -/
 import SmVerif.Model.Ownership
 import SmVerif.Model.SeqToHashes
@@ -100,6 +110,9 @@ deriving Repr, Inhabited
 
 inductive VKind where
   | linear | lazy | zipnm | zipm | multi | standalone | sbt | lca
+  /-- collections LOADED from disk: an SBT from .sbt.zip / .sbt.json (in-place selector, bounded node cache),
+      a SqliteIndex, an LCA_SqliteDatabase (both: copying select over a selection dict, signatures re-read from the db) -/
+  | sbtdisk | sqlite | lcasql
 deriving Repr, DecidableEq, Inhabited
 
 /-- selection keyword arguments / a stored selection dict, in insertion order.
@@ -120,11 +133,11 @@ structure ViewCell where
   sigs : List Nat := []               -- linear, sbt: member signature cells (references)
   vals : List SigVal := []            -- lca: what `insert` copied out of the signatures (flat, by value)
   db : Nat := 0                       -- lazy: the wrapped view cell (reference)
-  store : Nat := 0                    -- zipnm, zipm, standalone: the store on disk
-  sel : Option Sel := none            -- lazy, zipnm: the view's OWN selection dict
+  store : Nat := 0                    -- zipnm, zipm, standalone, sbtdisk, sqlite, lcasql: the store on disk
+  sel : Option Sel := none            -- lazy, zipnm, sqlite, lcasql: the view's OWN selection dict
   rows : List Nat := []               -- zipm, multi, standalone: the view's OWN row list (of shared rows)
-  picks : List (List String) := []    -- sbt, lca: `self.picklists` (name picklists, by value)
-  scaled : Nat := 0                   -- sbt, lca: the `scaled` of the members
+  picks : List (List String) := []    -- sbt, sbtdisk, lca: `self.picklists` (name picklists, by value)
+  scaled : Nat := 0                   -- sbt, sbtdisk, lca: the `scaled` of the members
 deriving Repr, Inhabited
 
 structure World where
@@ -231,6 +244,29 @@ def lcaRefuses (kw : Sel) (dbScaled : Nat) : Option String :=
   else if kwTruthy kw 4 then some "ValueError"
   else none
 
+/-- `SqliteCollectionManifest._make_select` + the query of `rows`: `.error` = the exception class raised while the
+    conditions are built (`select_d["scaled"] > 0` with `scaled=None`); `num` / `abund` never reach the dict
+    (`SqliteIndex._select` consumes them) -/
+def sqlPasses (d : Sel) (m : MH) : Except String Bool :=
+  if d.isEmpty then .ok true
+  else if d.lookup 2 == some none then .error "TypeError"
+  else .ok ((!kwTruthy d 0 || m.ksize == kwInt d 0) &&
+            (!(kwInt d 2 > 0) || Py.scaledProp m != 0) &&
+            (!kwTruthy d 5 || Py.scaledProp m != 0) &&
+            (match d.lookup 1 with
+             | some (some c) => c == molOf m
+             | _ => true))
+
+def filterSql (d : Sel) : List SigVal → Except String (List SigVal)
+  | [] => if d.isEmpty then .ok [] else if d.lookup 2 == some none then .error "TypeError" else .ok []
+  | v :: vs =>
+    match sqlPasses d v.mh with
+    | .error e => .error e
+    | .ok b =>
+      match filterSql d vs with
+      | .error e => .error e
+      | .ok r => .ok (if b then v :: r else r)
+
 /-! ### what a view yields -/
 
 /-- flat copy of a sketch, as `LCA_Database` re-creates it from its hash table -/
@@ -247,24 +283,33 @@ def sigCellsOf (w : World) (ids : List Nat) : List SigCell :=
 
 def frozenOut (vs : List SigVal) : List SigOut := vs.map (fun v => (true, v))
 
-/-- `list(view.signatures())` in iteration order; `none` = raises ValueError -/
-def viewSigs (w : World) (vc : ViewCell) : Option (List SigOut) :=
+def optErr {α : Type} (o : Option α) : Except String α :=
+  match o with
+  | some x => .ok x
+  | none => .error "ValueError"
+
+/-- what SqliteIndex hands out, as the CURRENT source has it (`Gen.ownSqliteHandsOutMutable`): a plain, MUTABLE
+    `SourmashSignature` (finding C15.3), or a frozen one once `_load_sketch` / `_load_sketches` freeze -/
+def mutableOut (vs : List SigVal) : List SigOut := vs.map (fun v => (!Gen.ownSqliteHandsOutMutable, v))
+
+/-- `list(view.signatures())` in iteration order; `.error` = the exception class it raises -/
+def viewSigs (w : World) (vc : ViewCell) : Except String (List SigOut) :=
   match vc.kind with
-  | .linear => some ((sigCellsOf w vc.sigs).map (fun c => (c.frozen, c.val)))
+  | .linear => .ok ((sigCellsOf w vc.sigs).map (fun c => (c.frozen, c.val)))
   | .lazy =>
     match w.views.cells[vc.db]? with
-    | none => some []
+    | none => .ok []
     | some dbc =>
-      (filterSel (vc.sel.getD []) (fun (c : SigCell) => c.val.mh) (sigCellsOf w dbc.sigs)).map
-        (fun l => l.map (fun c => (c.frozen, c.val)))
+      optErr ((filterSel (vc.sel.getD []) (fun (c : SigCell) => c.val.mh) (sigCellsOf w dbc.sigs)).map
+        (fun l => l.map (fun c => (c.frozen, c.val))))
   | .zipnm =>
     let all := (w.stores[vc.store]?).getD []
     match vc.sel with
-    | none => some (frozenOut all)
-    | some [] => some (frozenOut all)
-    | some kw => (filterSel kw (fun (v : SigVal) => v.mh) all).map frozenOut
+    | none => .ok (frozenOut all)
+    | some [] => .ok (frozenOut all)
+    | some kw => optErr ((filterSel kw (fun (v : SigVal) => v.mh) all).map frozenOut)
   | .zipm | .standalone =>
-    some (frozenOut (vc.rows.filterMap (fun r =>
+    .ok (frozenOut (vc.rows.filterMap (fun r =>
       match w.rows[r]? with
       | some row =>
         match row.loc with
@@ -272,7 +317,7 @@ def viewSigs (w : World) (vc : ViewCell) : Option (List SigOut) :=
         | none => none
       | none => none)))
   | .multi =>
-    some ((vc.rows.filterMap (fun r =>
+    .ok ((vc.rows.filterMap (fun r =>
       match w.rows[r]? with
       | some row =>
         match row.sig with
@@ -280,9 +325,13 @@ def viewSigs (w : World) (vc : ViewCell) : Option (List SigOut) :=
         | none => none
       | none => none)).map (fun c => (c.frozen, c.val)))
   | .sbt =>
-    some (((sigCellsOf w vc.sigs).filter (fun c => passesPicks vc.picks c.val.name)).map
+    .ok (((sigCellsOf w vc.sigs).filter (fun c => passesPicks vc.picks c.val.name)).map
       (fun c => (c.frozen, c.val)))
-  | .lca => some (frozenOut (vc.vals.filter (fun v => passesPicks vc.picks v.name)))
+  | .lca => .ok (frozenOut (vc.vals.filter (fun v => passesPicks vc.picks v.name)))
+  | .sbtdisk =>
+    .ok (frozenOut (((w.stores[vc.store]?).getD []).filter (fun v => passesPicks vc.picks v.name)))
+  | .sqlite | .lcasql =>
+    (filterSql (vc.sel.getD []) ((w.stores[vc.store]?).getD [])).map mutableOut
 
 /-! ### primitive effects -/
 
@@ -430,6 +479,12 @@ inductive Op where
   | vStandalone (r : Nat) (ss : List Nat)
   | vSbt (r : Nat) (ss : List Nat)
   | vLca (r : Nat) (ss : List Nat)
+  /-- save an in-memory SBT (fmt 0: .sbt.zip, 1: .sbt.json + directory) and load it back with the given node cache size -/
+  | vSbtLoad (r fmt cache : Nat) (ss : List Nat)
+  /-- `SaveSignaturesToLocation("x.sqldb")`, then `load_file_as_index` -/
+  | vSqlite (r : Nat) (ss : List Nat)
+  /-- `LCA_Database.save(format = json | sql)`, then `load_file_as_index` -/
+  | vLcaLoad (r fmt : Nat) (ss : List Nat)
   | vInsert (v s : Nat)
   | vSelect (r v : Nat) (kw : Sel)
   | vSelectPick (r v : Nat) (names : List String)
@@ -517,6 +572,25 @@ def selectOutcome (w : World) (vc : ViewCell) (kw : Sel) : SelOutcome :=
     match lcaRefuses kw vc.scaled with
     | some e => .err e
     | none => .inplace vc
+  | .sbtdisk =>
+    if (((w.stores[vc.store]?).getD []).filter (fun v => passesPicks vc.picks v.name)).isEmpty then .inplace vc
+    else if sbtRefuses kw vc.scaled then .err "ValueError"
+    else .inplace vc
+  | .sqlite | .lcasql =>
+    -- `SqliteIndex._select`: `num` / `abund` are refused when truthy and never reach the manifest's dict
+    if kwTruthy kw 3 || kwTruthy kw 4 then .err "ValueError"
+    else
+      let kw' := kw.filter (fun p => p.1 != 3 && p.1 != 4)
+      let merged : Option Sel :=
+        match vc.sel with
+        | none | some [] => some kw'
+        | some d => mergeZip d kw'
+      match merged with
+      | none => .err "ValueError"
+      | some d =>
+        -- an LCA_SqliteDatabase re-reads its rows while it is constructed (`_build_index`)
+        if vc.kind == .lcasql && !d.isEmpty && d.lookup 2 == some none then .err "TypeError"
+        else .fresh { kind := vc.kind, store := vc.store, sel := some d }
 
 /-- `select(picklist=pl)` on the in-place kinds: the picklist is appended, THEN a second one is refused -/
 def pickOutcome (w : World) (vc : ViewCell) (names : List String) : Option (ViewCell × Res) :=
@@ -529,6 +603,11 @@ def pickOutcome (w : World) (vc : ViewCell) (names : List String) : Option (View
   | .lca =>
     let vc' := { vc with picks := vc.picks ++ [names] }
     some (vc', if vc'.picks.length > 1 then .err "ValueError" else .ok)
+  | .sbtdisk =>
+    if (((w.stores[vc.store]?).getD []).filter (fun v => passesPicks vc.picks v.name)).isEmpty then some (vc, .ok)
+    else
+      let vc' := { vc with picks := vc.picks ++ [names] }
+      some (vc', if vc'.picks.length > 1 then .err "ValueError" else .ok)
   | _ => none
 
 /-- kinds whose `signatures()` yields the very objects the collection holds -/
@@ -538,7 +617,13 @@ def VKind.holdsObjects : VKind → Bool
 
 /-- kinds whose `signatures()` re-reads the signatures from disk -/
 def VKind.onDisk : VKind → Bool
-  | .zipnm | .zipm | .standalone => true
+  | .zipnm | .zipm | .standalone | .sqlite | .lcasql => true
+  | _ => false
+
+/-- disk kinds whose iteration order is the order the signatures were written in (`vget` is defined on these;
+    an LCA_SqliteDatabase is filled in the LCA_Database's internal order) -/
+def VKind.readsInOrder : VKind → Bool
+  | .zipnm | .zipm | .standalone | .sqlite => true
   | _ => false
 
 /-- the cells of the objects `signatures()` yields, for the kinds that hold objects; `none` = raises ValueError -/
@@ -674,6 +759,43 @@ def step (w : World) : Op → World × Res
           (w.viewFresh r { kind := .lca, vals := vs.map (fun v => ⟨flatOf v.mh, v.name, ""⟩),
                            scaled := Py.scaledProp v0.mh }, .ok)
     | none => (w, .bad)
+  | .vSbtLoad r fmt _cache ss =>
+    match w.sigVals ss with
+    | some vs =>
+      match vs with
+      | [] => (w, .bad)
+      | v0 :: _ =>
+        if fmt > 1 || !(uniformScaled v0.mh.maxHash vs) || !distinctMins vs then (w, .bad)
+        else
+          ({ w with stores := w.stores ++ [vs] }.viewFresh r
+            { kind := .sbtdisk, store := w.stores.length, scaled := Py.scaledProp v0.mh }, .ok)
+    | none => (w, .bad)
+  | .vSqlite r ss =>
+    match w.sigVals ss with
+    | some vs =>
+      match vs with
+      | [] => (w, .bad)
+      | v0 :: _ =>
+        if !(uniformScaled v0.mh.maxHash vs) || !distinctMins vs || vs.any (fun v => v.mh.trackAbundance) then (w, .bad)
+        else
+          ({ w with stores := w.stores ++ [vs.map (fun (v : SigVal) => (⟨flatOf v.mh, v.name, v.filename⟩ : SigVal))] }.viewFresh r
+            { kind := .sqlite, store := w.stores.length, sel := none }, .ok)
+    | none => (w, .bad)
+  | .vLcaLoad r fmt ss =>
+    match w.sigVals ss with
+    | some vs =>
+      match vs with
+      | [] => (w, .bad)
+      | v0 :: _ =>
+        if fmt > 1 || !(uniformScaled v0.mh.maxHash vs) || !namesOk vs then (w, .bad)
+        else
+          let flat := vs.map (fun v => (⟨flatOf v.mh, v.name, ""⟩ : SigVal))
+          if fmt == 0 then
+            (w.viewFresh r { kind := .lca, vals := flat, scaled := Py.scaledProp v0.mh }, .ok)
+          else
+            ({ w with stores := w.stores ++ [flat] }.viewFresh r
+              { kind := .lcasql, store := w.stores.length, sel := none }, .ok)
+    | none => (w, .bad)
   | .vInsert v s =>
     match w.views.cid v, w.views.cell v, w.sigs.cid s, w.sigs.cell s with
     | some c, some vc, some sc, some scell =>
@@ -686,6 +808,7 @@ def step (w : World) : Op → World × Res
         if scell.val.mh.num ≠ 0 || Py.scaledProp scell.val.mh ≠ vc.scaled || scell.val.name == "" then (w, .bad)
         else if vc.vals.any (fun u => u.name == scell.val.name) then (w, .err "ValueError")
         else (w.viewSet c { vc with vals := vc.vals ++ [⟨flatOf scell.val.mh, scell.val.name, ""⟩] }, .ok)
+      | .sbtdisk | .sqlite => (w, .bad)      -- outside the modelled domain (the insertion goes to the shared database / is not in the manifest)
       | _ => (w, .err "NotImplementedError")
     | _, _, _, _ => (w, .bad)
   | .vSelect r v kw =>
@@ -715,13 +838,13 @@ def step (w : World) : Op → World × Res
           match l[i]? with
           | some c => (w.sigAlias r c, .ok)
           | none => (w, .err "IndexError")
-      else if vc.kind.onDisk then
+      else if vc.kind.readsInOrder then
         -- loaded from disk on every call: a new frozen object
         match viewSigs w vc with
-        | none => (w, .err "ValueError")
-        | some l =>
+        | .error e => (w, .err e)
+        | .ok l =>
           match l[i]? with
-          | some o => (w.sigFresh r o.2 true, .ok)
+          | some o => (w.sigFresh r o.2 o.1, .ok)
           | none => (w, .err "IndexError")
       else (w, .bad)
     | none => (w, .bad)
@@ -747,7 +870,7 @@ def viewReceiver : Op → Option Nat
   | _ => none
 
 def VKind.inPlace : VKind → Bool
-  | .sbt | .lca => true
+  | .sbt | .lca | .sbtdisk => true
   | _ => false
 
 end Sm.Obj
